@@ -41,7 +41,12 @@ PAYLOADS = {
     "sq": "'><i id=MK3 onfocus=y b='",
     "combo": "<u>'\"><s x=\"'&amp;",
     "safe": "SAFEVALUE",
+    # text that cannot be encoded (a lone surrogate, as os.fsdecode and json produce them) beside markup: exception messages only
+    "selem": '\udc80<script id="MK1">alert(1)</script>',
+    "scombo": "<u>'\"><s x=\"'&amp;\ud800",
+    "snl": "\udcff\n\"><b id=MK2 onmouseover=x a=\"",
 }
+SURROGATE_KEYS = ("selem", "scombo", "snl")
 METHOD_PAYLOADS = {"tok": "GE'T&x", "safe": "GETX"}
 PLACES = ["path", "query", "host", "cookie", "referer", "user_agent", "x_forwarded_for", "x_forwarded_host",
           "x_forwarded_proto", "x_custom", "accept", "excmsg", "admin_absent"]
@@ -66,7 +71,9 @@ def setup():
         os.makedirs(os.path.join(d, names[3]))
     os.makedirs(os.path.join(root, "noindex"))
     # directories whose own names carry the payloads (a '/' in a payload makes nested directories)
-    for payload in PAYLOADS.values():
+    for pkey, payload in PAYLOADS.items():
+        if pkey in SURROGATE_KEYS:
+            continue
         d = os.path.join(root, "dirs", *payload.split("/"))
         os.makedirs(d)
         with open(os.path.join(d, "f.txt"), "w") as f:
@@ -238,6 +245,9 @@ def generate(rng, tier):
                     if place == "excmsg" and page != "500":
                         continue
                     cases.append(mk(page, place, pkey, debug))
+            if page == "500":
+                for pkey in SURROGATE_KEYS:
+                    cases.append(mk(page, "excmsg", pkey, debug))
             cases.append(mk(page, "method", "tok", debug))
             if page == "listing":
                 cases.append(mk(page, "filenames", "nasty", debug))
@@ -326,7 +336,8 @@ def oracle(case):
     page, place, pkey, debug = page_of(case)
     try:
         s1, b1 = request(page, place, payload_for(place, pkey), debug)
-        s0, b0 = request(page, place, payload_for(place, "safe"), debug)
+        # (the harmless twin has as many lines: every traceback line is a <span> of the page's own)
+        s0, b0 = request(page, place, "SAFE\nVALUE" if pkey == "snl" else payload_for(place, "safe"), debug)
     except Exception as err:
         return []       # an escaping exception is C01's business
     st1, st0 = structure(b1), structure(b0)
